@@ -7,8 +7,8 @@ from ..ast import bind, show, walk, is_var, structure, C, L
 from ..fingerprint import fingerprint, diff
 
 ID = "C18"
-RULE = ("Mode H: 4 base configurators (no rule; one defaulted rule; two rules; a top-level item plus a rule) x ALL sequences of length <=2 "
-        "(quick) / <=3 (thorough) over a menu of 8 rules (plain, defaulted, implication rules, generated and explicit ids, one whose id "
+RULE = ("Mode H: 4 base configurators (no rule; one defaulted rule; two rules; a top-level item plus a rule) x ALL sequences of length <=3 "
+        "(quick) / <=4 (thorough) over a menu of 8 rules (plain, defaulted, implication rules, generated and explicit ids, one whose id "
         "collides with an existing rule id, one whose id equals a top-level item). Every prefix is a state; transition = add(rule) on the "
         "real object. oracle: after every accepted addition the configurator has the same structural key, default priorities, polyhedron "
         "and exact-solver selections (priority alphabet) as StingyConfigurator(*old_rules, *added, id=base.id) built from fresh objects; the "
@@ -16,7 +16,7 @@ RULE = ("Mode H: 4 base configurators (no rule; one defaulted rule; two rules; a
         "top-level proposition is refused at whatever position, leaving the configurator unchanged. non-trivial = distinct sequence with at "
         "least one accepted addition")
 ASSUMPTIONS = ["caches are cleared before each comparison (C09 owns cache state)"]
-BOUNDS = {"quick": "4 bases x sequences of length <=2 over 8 rules", "thorough": "4 bases x sequences of length <=3"}
+BOUNDS = {"quick": "4 bases x sequences of length <=3 over 8 rules", "thorough": "4 bases x sequences of length <=4"}
 
 
 def bases():
@@ -42,7 +42,7 @@ def menu():
 
 
 def shards(tier):
-    depth = 2 if tier == "quick" else 3
+    depth = 3 if tier == "quick" else 4
     out = []
     for bi in range(len(bases())):
         for first in range(len(menu())):
